@@ -27,12 +27,18 @@ IMPL_EXTRAS = [
     "pub fn helper_closure(&self) -> u32 { let f = |#[allow(unused)] a: u32| a * 2; f(2) }",
     "pub async fn helper_async(&self) {}",
     "pub unsafe fn helper_unsafe(p: *const u8) -> u8 { *p }",
+    # item-position macro invocations are members of the block like any other
+    "helper_macro! { fn made_by_macro(&self) -> u32 { 1 } }",
+    "some::path::make_items!(a, b);",
+    "#[allow(dead_code)]\n    attr_macro_item![x];",
+    "type Assoc = u32;",
 ]
 TRAIT_EXTRAS = [
     "fn provided(&self) -> u32 { 1 }",
     "/// docs\n        fn provided_attr_param(&self, #[allow(unused)] x: u32) -> u32 { 2 }",
     "const K: u32 = 3;",
     "fn required_helper(&self, n: u8) -> u8;",
+    "trait_items! { fn from_macro(&self); }",
 ]
 
 
@@ -40,6 +46,10 @@ def decorate(rng, p):
     p = copy.deepcopy(p) if False else p
     for part in p["parts"]:
         part["foreign_attrs"] = rng.sample(ITEM_ATTRS, rng.choice([0, 1, 2])) + rng.sample(LOOKALIKE_ATTRS[:3], rng.choice([0, 0, 1]))
+        if part["foreign_attrs"] and rng.random() < 0.3:
+            # the same foreign attribute written twice stays written twice
+            j = rng.randrange(len(part["foreign_attrs"]))
+            part["foreign_attrs"].insert(rng.randrange(len(part["foreign_attrs"]) + 1), part["foreign_attrs"][j])
         extras = IMPL_EXTRAS if part["id"] == "c" else TRAIT_EXTRAS
         part["extra_items"] = rng.sample(extras, rng.choice([1, 2, 3]))
         if part["id"] == "c":
@@ -51,6 +61,9 @@ def decorate(rng, p):
             if h["kind"] == "reply":
                 continue
             h["foreign_attrs"] = rng.sample(FN_ATTRS, rng.choice([0, 0, 1, 2])) + rng.sample(LOOKALIKE_ATTRS, rng.choice([0, 0, 0, 1]))
+            if h["foreign_attrs"] and rng.random() < 0.3:
+                j = rng.randrange(len(h["foreign_attrs"]))
+                h["foreign_attrs"].insert(rng.randrange(len(h["foreign_attrs"]) + 1), h["foreign_attrs"][j])
             if h["kind"] in ("exec", "query", "sudo"):
                 h["sv_attrs"] = rng.sample(["serde(alias = \"al1\")", "serde(alias = \"al2\")", "doc = \"forwarded\"", "cfg_attr(all(), allow(dead_code))",
                                             "schemars(description = \"d\")"], rng.choice([0, 1, 2, 3, 4]))
